@@ -701,3 +701,36 @@ fn eq_name_ascii() {
     }
     kani::cover!(sel == 2);
 }
+
+// ---- C15: an accepted name is stored losslessly (write path -> read path), per character position ----
+
+// @obl props=C15,C04,C19 tier=quick feat=fa,fn feat_quick=fa fns=validate_long_name,LfnEntriesGenerator::next,LongNameBuilder::process,LongNameBuilder::into_buf,LongNameBuilder::truncate timeout=900
+// @bound bounded: names of two characters (each ANY accepted char: first and last position of a name); longer names: lfn_generator_run_* + lfnb_finish_*
+// @desc for every two-character name that validate_long_name ACCEPTS: the long-name slot generated for it, fed back through the long-name builder together with its short entry, yields exactly the same UTF-16 units - nothing is trimmed from or added to an accepted name (in particular its last character survives)
+#[kani::proof]
+#[kani::unwind(264)]
+fn lfn_roundtrip_two_chars() {
+    let c1: char = kani::any();
+    let c2: char = kani::any();
+    let mut buf = [0u8; 8];
+    let n1 = c1.encode_utf8(&mut buf[..4]).len();
+    let n2 = c2.encode_utf8(&mut buf[n1..]).len();
+    let name = unsafe { core::str::from_utf8_unchecked(&buf[..n1 + n2]) };
+    kani::assume(validate_long_name::<()>(name).is_ok());
+    // accepted characters fit one UTF-16 unit
+    assert!((c1 as u32) <= 0xFFFF && (c2 as u32) <= 0xFFFF);
+    let units = [c1 as u16, c2 as u16];
+    let sfn: [u8; 11] = kani::any();
+    let chk = lfn_checksum(&sfn);
+    let mut gen = LfnEntriesGenerator::new(&units, chk);
+    let slot = gen.next().unwrap();
+    assert!(gen.next().is_none());
+    let mut b = LongNameBuilder::new();
+    b.process(&slot);
+    b.validate_chksum(&sfn);
+    let out = b.into_buf();
+    let got = out.as_ucs2_units();
+    assert!(got.len() == 2);
+    assert!(got[0] == units[0] && got[1] == units[1]);
+    kani::cover!(c2 as u32 >= 0x80);
+}
